@@ -5,7 +5,7 @@ import z3
 from pyvc import rope as R
 from pyvc.contracts import T
 from pyvc.smt import Z, blen, fresh_bytes, fresh_int
-from pyvc.values import ClassRef, SBytes, SEnum, SObj, SUUID
+from pyvc.values import UNSPEC, ClassRef, SBytes, SEnum, SObj, SUUID
 
 from . import REG
 from .c_codecs import class_param
@@ -543,7 +543,7 @@ def pdu_unpack_any(c):
 def _opaque_list(I_, cur, s):
     from pyvc.values import SList
 
-    return SList(fresh_int("n_items"), lambda j: None)
+    return SList(fresh_int("n_items"), lambda j: UNSPEC)
 
 
 def annotate_pdu_loops(c, cost=False):
@@ -617,9 +617,11 @@ def pdu_unpack_summary(c):
     else:
         k = c.ctx.choose(len(PTYPE_CLASS), "pdu_class")
         pt, name = list(PTYPE_CLASS.items())[k]
-        c.assume(Z(ptype) == pt)
+        # a fact about the RESULT (which class comes back for which packet type): assumed on the returning path only, so that for a
+        # packet type outside the registry the summary's outcome is one of the exceptions above, not an infeasible path
+        c.ensures("class-by-packet-type", lambda r: Z(ptype) == pt)
         hdr = SObj(cls(c, "PDUHeader"), {"version": fresh_int("v"), "version_minor": fresh_int("vm"), "packet_type": enum_val(c, "PacketType", pt),
-                                          "packet_flags": enum_val(c, "PacketFlags", fresh_int("flags")), "data_rep": None, "frag_len": frag_len, "auth_len": auth_len,
+                                          "packet_flags": enum_val(c, "PacketFlags", fresh_int("flags")), "data_rep": UNSPEC, "frag_len": frag_len, "auth_len": auth_len,
                                           "call_id": fresh_int("call_id")})
         if c.ctx.branch(Z(auth_len) != 0):
             st = SObj(cls(c, "SecTrailer"), {"type": enum_val(c, "SecurityProvider", fresh_int("st_type")), "level": enum_val(c, "AuthenticationLevel", fresh_int("st_level")),
@@ -645,12 +647,12 @@ def pdu_unpack_summary(c):
             def res(j, tag=tag):
                 code = z3.Function("ACK_RESULT", z3.IntSort(), z3.IntSort(), z3.IntSort())(tag, Z(j))
                 c.assume(z3.And(code >= 0, code <= 3))
-                return SObj(res_cls, {"result": enum_val(c, "ContextResultCode", code), "reason": fresh_int("reason"), "syntax": None, "syntax_version": fresh_int("sv")})
+                return SObj(res_cls, {"result": enum_val(c, "ContextResultCode", code), "reason": fresh_int("reason"), "syntax": UNSPEC, "syntax_version": fresh_int("sv")})
 
             fields.update({"max_xmit_frag": c.fresh(U16, "mx"), "max_recv_frag": c.fresh(U16, "mr"), "assoc_group": c.fresh(U32, "ag"), "sec_addr": c.fresh(T.Str, "sec_addr"),
                            "results": SList(nres, res)})
         elif name == "Request":
-            fields.update({"alloc_hint": c.fresh(U32, "alloc_hint"), "context_id": c.fresh(U16, "context_id"), "opnum": c.fresh(U16, "opnum"), "obj": None,
+            fields.update({"alloc_hint": c.fresh(U32, "alloc_hint"), "context_id": c.fresh(U16, "context_id"), "opnum": c.fresh(U16, "opnum"), "obj": UNSPEC,
                            "stub_data": c.fresh(T.Bytes, "req_stub")})
         else:
             fields.update({"max_xmit_frag": c.fresh(U16, "mx"), "max_recv_frag": c.fresh(U16, "mr"), "assoc_group": c.fresh(U32, "ag"), "contexts": _opaque_list(c.I, None, None)})
@@ -662,7 +664,7 @@ def reply_object(c, name):
     from pyvc.values import SList
 
     hdr = SObj(cls(c, "PDUHeader"), {"version": fresh_int("v"), "version_minor": fresh_int("vm"), "packet_type": enum_val(c, "PacketType", fresh_int("pt")),
-                                      "packet_flags": enum_val(c, "PacketFlags", c.fresh(U8, "reply_flags")), "data_rep": None, "frag_len": c.fresh(U16, "fl"),
+                                      "packet_flags": enum_val(c, "PacketFlags", c.fresh(U8, "reply_flags")), "data_rep": UNSPEC, "frag_len": c.fresh(U16, "fl"),
                                       "auth_len": c.fresh(U16, "al"), "call_id": fresh_int("call_id")})
     if c.ctx.branch(z3.Bool("reply_has_no_trailer!%d" % len(c.ctx.taken))):
         st = None
@@ -680,7 +682,7 @@ def reply_object(c, name):
         def res(j, tag=tag):
             code = z3.Function("ACK_RESULT", z3.IntSort(), z3.IntSort(), z3.IntSort())(tag, Z(j))
             c.assume(z3.And(code >= 0, code <= 3))
-            return SObj(res_cls, {"result": enum_val(c, "ContextResultCode", code), "reason": fresh_int("reason"), "syntax": None, "syntax_version": fresh_int("sv")})
+            return SObj(res_cls, {"result": enum_val(c, "ContextResultCode", code), "reason": fresh_int("reason"), "syntax": UNSPEC, "syntax_version": fresh_int("sv")})
 
         f.update({"max_xmit_frag": c.fresh(U16, "mx"), "max_recv_frag": c.fresh(U16, "mr"), "assoc_group": c.fresh(U32, "ag"), "sec_addr": c.fresh(T.Str, "sec_addr"),
                   "results": SList(nres, res)})
